@@ -72,13 +72,41 @@ def polygon_init(chk, shapes):
             return "ValueError", str(e)
         return "ok", o
     n_ok = 0
+    # planarity, stated from the property ("accepts every planar polygon", "rejects off-plane by > 1% of size"):
+    # h_k = n . (v_k - v_0) and d = n . v_0 with n the unit normal of the first three vertices, computed here independently
+    vf = sp.Function("Vp", real=True)
+    row = lambda i: [vf(i, sp.Integer(j)) for j in range(3)]   # noqa: E731
+    v0, v1, v2, vk = row(sp.Integer(0)), row(sp.Integer(1)), row(sp.Integer(2)), row(N.k)
+    a_, b_ = [v2[j] - v1[j] for j in range(3)], [v0[j] - v1[j] for j in range(3)]
+    cr = [a_[1] * b_[2] - a_[2] * b_[1], a_[2] * b_[0] - a_[0] * b_[2], a_[0] * b_[1] - a_[1] * b_[0]]
+    nrm = sp.sqrt(sum(x * x for x in cr))
+    h_spec = sum(cr[j] * (vk[j] - v0[j]) for j in range(3)) / nrm
+    d_spec = sum(cr[j] * v0[j] for j in range(3)) / nrm
+    hs, ds, size = sp.Symbol("h_k", real=True), sp.Symbol("d_plane", real=True), sp.Symbol("size", positive=True)
+    # the domain on which "1% of the size" is above the constructor's documented tolerance floor (1e-8 + 1e-5 |d|)
+    domain = [sp.Ge(size, sp.Rational(2, 10**6)), sp.Le(sp.Abs(ds), 100 * size)]
+    chk.notes.append("Polygon.__init__ planarity clauses hold on the domain size >= 2e-6 and |plane offset| <= 100 size "
+                     "(outside it the documented tolerance 1e-8 + 1e-5 |d| exceeds 1% of the size)")
     for p in chk.explore(fkey, run, assumptions=N.facts()):
         t = path_tag(p)
         kind, info = p.value
+        pcu = unfold_defs(p.pc, N)
+        geo = [c_ for c_ in pcu if getattr(c_, "has", None) and c_.has(vf)]
+        plain = [c_ for c_ in pcu if c_ not in geo]
+        apc, unmatched = abstract_conditions(geo, {hs: h_spec, ds: d_spec}, {hs + ds: h_spec + d_spec})
+        loose = bool(unmatched) or not geo       # the abstraction lost information: counter-models need a replay
         if kind == "ok":
             n_ok += 1
-            chk.prove(f"Polygon.__init__:accepts_only_three_or_more_vertices[{t}]", fkey, p.pc, sp.Ge(N.n, 3))
-            chk.prove(f"Polygon.__init__:accepts_only_without_duplicates[{t}]", fkey, p.pc, sp.Not(dup))
+            chk.prove(f"Polygon.__init__:accepts_only_three_or_more_vertices[{t}]", fkey, plain, sp.Ge(N.n, 3))
+            chk.prove(f"Polygon.__init__:accepts_only_without_duplicates[{t}]", fkey, plain, sp.Not(dup))
+            chk.prove(f"Polygon.__init__:accepted_vertices_are_within_1%_of_size_of_the_plane[{t}]", fkey, apc + domain,
+                      sp.Le(sp.Abs(hs), size / 100), replay=_replay_planarity, abstracted=loose)
+            chk.record(f"Polygon.__init__:planarity_test_is_on_plane_distances[{t}]", fkey,
+                       "proved" if not unmatched else "unknown", "normal-form-matching", detail=str(unmatched)[:200], model={},
+                       goal="every geometric quantity in the acceptance condition is n.(v_k - v_0) or n.v_0")
+        elif "coplanar" in info:
+            chk.prove(f"Polygon.__init__:planar_vertex_is_never_the_reason_for_rejection[{t}]", fkey, apc, sp.Ne(hs, 0),
+                      replay=_replay_planar_rejected, abstracted=loose)
         else:
             reason = {"at least 3": sp.Lt(N.n, 3), "duplicate": dup}
             goal = None
@@ -91,6 +119,111 @@ def polygon_init(chk, shapes):
                 chk.record(f"Polygon.__init__:raises_ValueError[{t}:{info[:24]}]", fkey, "proved", "type-check", detail=info)
     if not n_ok:
         chk.errors.append("Polygon.__init__: no accepting path")
+
+
+def unfold_defs(pc, dim):
+    """defined quantifier symbols of the path condition at the generic index: a true `exists` is witnessed by the generic
+    row (Skolem constant), a false one is instantiated there; dually for `forall`"""
+    out = []
+    for c_ in pc:
+        c_ = sp.sympify(c_)
+        neg = isinstance(c_, sp.Not)
+        s = c_.args[0] if neg else c_
+        d = DEFS.get(s)
+        if d is not None and d.kind in ("exists", "forall") and d.dim is dim:
+            weak = (d.kind == "exists") == (not neg)      # exists true / forall false: one witness row
+            body = d.at(dim.k)
+            out.append(sp.Not(body) if neg else body)
+        else:
+            out.append(c_)
+    return out
+
+
+def abstract_conditions(conds, specs, sums=()):
+    """Rewrite conditions over huge geometric terms as conditions over a few named quantities.
+
+    specs: {symbol: expression}.  Every Abs(X) / maximal geometric subterm X of the conditions is compared (exact normal
+    form) with +-spec and +-(sum of specs); a match is replaced by the symbol(s).  Unmatched geometric terms become fresh
+    unconstrained symbols (sound for proving; they are reported)."""
+    from pyvc.oblig import normal_form
+    cands = [(s, e) for s, e in specs.items()] + [(s, e) for s, e in dict(sums).items()]
+    cands += [(s1 - s2, e1 - e2) for s1, e1 in specs.items() for s2, e2 in specs.items() if s1 is not s2]
+    fresh, unmatched, cache = [], [], {}
+    spec_syms = set().union(*[e.free_symbols | e.atoms(sp.Function) for e in specs.values()])
+
+    def geometric(x):
+        return bool(x.atoms(sp.Function) & spec_syms) or any(isinstance(a, sp.core.function.AppliedUndef) for a in x.atoms(sp.Function))
+
+    def match(x):
+        if x in cache:
+            return cache[x]
+        out = None
+        for s, e in cands:
+            if normal_form(x - e) == 0:
+                out = s
+                break
+            if normal_form(x + e) == 0:
+                out = -s
+                break
+        if out is None:
+            out = sp.Symbol(f"unmatched_{len(fresh)}", real=True)
+            fresh.append(out)
+            unmatched.append(str(x)[:120])
+        cache[x] = out
+        return out
+
+    def rec(x):
+        if not x.args or not geometric(x):
+            return x
+        if isinstance(x, sp.Abs):
+            return sp.Abs(match(x.args[0]))
+        if isinstance(x, (sp.Add,)):
+            geo = [a for a in x.args if geometric(a)]
+            rest = [a for a in x.args if not geometric(a)]
+            # coefficient * Abs(...) terms are kept structurally, the remaining geometric part is matched as a whole
+            keep = [a for a in geo if a.has(sp.Abs)]
+            whole = [a for a in geo if not a.has(sp.Abs)]
+            return sp.Add(*rest, *[rec(a) for a in keep], *( [match(sp.Add(*whole))] if whole else []))
+        if isinstance(x, sp.Mul) and x.has(sp.Abs):
+            return x.func(*[rec(a) for a in x.args])
+        if isinstance(x, (sp.core.relational.Relational, sp.And, sp.Or, sp.Not)):
+            return x.func(*[rec(a) for a in x.args])
+        return match(x)
+    return [rec(sp.sympify(c)) for c in conds], unmatched
+
+
+def _replay_planarity(model):
+    """squares of side `size` in the plane z = d with one vertex lifted by h, over a sweep of sizes / offsets within the
+    stated domain: accepted although lifted by more than 1% of the size, or rejected although exactly planar"""
+    from .common import real_coxeter
+    cox = real_coxeter()
+    for size in (2e-6, 1e-5, 1e-4, 1e-3, 1.0, 1e3):
+        for d in (0.0, size, 100 * size):
+            for lift in (0.0, 0.011 * size, 0.05 * size, 0.5 * size):
+                V = np.array([[0, 0, d], [size, 0, d], [size, size, d + lift], [0, size, d]], dtype=float)
+                try:
+                    cox.shapes.Polygon(V)
+                    ok = True
+                except ValueError:
+                    ok = False
+                # distance of the lifted vertex from the plane of the first three vertices is `lift` (they are unlifted)
+                if lift > 0 and ok:
+                    return True, {"vertices": V.tolist(), "size": size, "plane_offset": d, "lift": lift,
+                                  "lift_relative_to_size": lift / size, "accepted": ok}
+    return False, {}
+
+
+def _replay_planar_rejected(model):
+    from .common import real_coxeter
+    cox = real_coxeter()
+    for size in (2e-6, 1e-5, 1e-4, 1e-3, 1.0, 1e3):
+        for d in (0.0, size, 100 * size):
+            V = np.array([[0, 0, d], [size, 0, d], [size, size, d], [0, size, d]], dtype=float)
+            try:
+                cox.shapes.Polygon(V)
+            except ValueError as e:
+                return True, {"vertices": V.tolist(), "size": size, "plane_offset": d, "raised": str(e)[:100]}
+    return False, {}
 
 
 class _Idx:
